@@ -57,7 +57,7 @@ def run(ctx):
         raise vf.Inconclusive('abuse driver: %s' % abuse['error'][:600])
     for k in abuse.get('killers') or []:
         ctx.violation({'check': 'C10', 'kind': 'process_died_or_stopped_serving', 'frame_type': k['frame_type']},
-                      ('one stalled client (script %s, read timeout 400ms): %s' % (k['mode'], k['effect'])) if k['frame_type'] == 'STALL' else ('one client sending %s: %s' % (k['mode'], k['effect'])) if k['frame_type'] == 'SHOT' else
+                      ('one stalled client (script %s, read timeout 400ms): %s' % (k['mode'], k['effect'])) if k['frame_type'] == 'STALL' else ('one client sending %s: %s' % (k['mode'], k['effect'])) if k['frame_type'] == 'SHOT' else ('ordinary clients only (%s): %s' % (k['mode'], k['effect'])) if k['frame_type'] == 'ORDINARY' else
                       'one HTTP/2 connection sending a %s frame (%d bytes, %s, open header block on %s): %s' % (k['frame_type'], k['len'], k['mode'], k['open_header_block_on'], k['effect']), k)
     cov = {'traces_validated_against_impl': len([a for a in accepted if a.split('-')[0] in ('mix', 'iofault', 'leave')]) + npanic + abuse['connections'],
            'h2_frame_abuse': {k: abuse[k] for k in ('vectors_in_graph', 'connections', 'by_type', 'strata', 'outcomes', 'control_rounds', 'stall_scripts', 'one_shot_scripts') if k in abuse},
